@@ -88,8 +88,12 @@ impl BDecoder {
         first_num: &u8,
     ) -> Result<(Vec<u8>, Vec<u8>), Error> {
         let mut len_bytes = vec![*first_num];
+        let mut delimiter_found = false;
         let mut rest_len_bytes: Vec<_> = it
-            .take_while(|(_, &b)| b != b':')
+            .take_while(|(_, &b)| {
+                delimiter_found = b == b':';
+                !delimiter_found
+            })
             .map(|(_, &b)| b)
             .collect();
         len_bytes.append(&mut rest_len_bytes);
@@ -98,6 +102,11 @@ impl BDecoder {
 
         if !len_bytes.iter().all(|b| (b'0'..=b'9').contains(b)) {
             return Err(Error::DecodeIncorrectChar("parse_byte_str", pos));
+        }
+
+        // Input ended before the ':' delimiter
+        if !delimiter_found {
+            return Err(Error::DecodeNotEnoughChars("parse_byte_str", pos));
         }
 
         let len_str = match String::from_utf8(len_bytes) {
